@@ -52,7 +52,7 @@ def crossratio(
 
     """
     if a == b:
-        return np.ones(a.shape[: a.free_indices])
+        return np.ones(np.broadcast_shapes(*(x.shape[: x.free_indices] for x in (a, b, c, d))))
 
     if (
         isinstance(a, LineTensor)
